@@ -2,6 +2,7 @@
 //! vharness <prop> replay <file>                                   — re-run the cases of a file, print lines
 mod common;
 mod c12;
+mod c13;
 mod c19;
 
 use common::*;
@@ -16,6 +17,7 @@ struct Prop {
 fn props() -> Vec<Prop> {
   vec![
     Prop { id: "C12", exec: c12::exec, gen: c12::gen },
+    Prop { id: "C13", exec: c13::exec, gen: c13::gen },
     Prop { id: "C19", exec: c19::exec, gen: c19::gen },
   ]
 }
